@@ -15,6 +15,7 @@ const pep440BoundedTmpl = `package pypi
 
 import (
 	"fmt"
+	"os"
 	"testing"
 )
 
@@ -227,6 +228,17 @@ func TestVerifReplay(t *testing.T) {
 					first[class] = fmt.Sprintf("Compare(%q, %q) = %d, the PEP 440 key gives %d", a.p.text, b.p.text, got, want)
 				}
 			}
+		}
+	}
+	if os.Getenv("VERIF_DUMP") != "" {
+		total := len(parsed) * len(parsed)
+		step := total/4000 + 1
+		if step%2 == 0 {
+			step++
+		}
+		for k := 0; k < total; k += step {
+			a, b := parsed[k/len(parsed)], parsed[k%len(parsed)]
+			fmt.Printf("VERIF-PAIR %q %q %d all\n", a.p.text, b.p.text, verifRef(a.p, b.p))
 		}
 	}
 	for _, c := range []string{"public", "local-label"} {
